@@ -8,6 +8,7 @@ import sys
 from fractions import Fraction
 
 import common as c
+import c16_capt
 
 PID = "C16"
 MANIFEST = {
@@ -603,6 +604,8 @@ def replay(h, cli, path):
         out = c.harness_lines_resilient(h, kind, [c.hexs(rp["text"])])[0]
         print("implementation now returns:", out)
         return 0 if out == rp.get("expected") else 1
+    if kind in ("c16-capt", "c16-astlit"):
+        return c16_capt.replay(h, rp)
     if kind == "c16-cli":
         got, err = run_cli_roundtrip(cli, [rp["text"]])
         print("implementation now returns:", got, err)
@@ -648,6 +651,7 @@ def main(argv):
     cb = [int(ln, 16) for ln in corpus_lines("doubles")]
     kinds["corpus"] = len(cb)
     xs = list(dict.fromkeys(cb + xs))
+    xs = list(dict.fromkeys(xs + c16_capt.extra_doubles()))     # i64/u64 edges etc. for the CAPTURED family's leaf classes
     lines = c.harness_lines_resilient(h, "c16-num", [hx16(b) for b in xs])
     rust = [parse_fields(l) for l in lines]
     exprs = []
@@ -924,6 +928,14 @@ def main(argv):
                           {"kind": "c16-cli-lit", "text": t, "expected": hx16(r), "observed_text": it,
                            "rerun": "blots 'output x = %s' </dev/null" % t})
 
+    # ---------------------------------------------------------------- CAPTURED: numbers inside captured containers
+    # (lists, records, nested, closures) through function-source emission; see checks/c16_capt.py
+    def capt_model_ok(b):
+        mi = model[idx_of[b]] if b in idx_of else None
+        return bool(mi) and parse_fields(mi).get("E") == "T"
+    capt = c16_capt.run(res, c.Rng(seed ^ 0xC16CA), h, cli, xs, rust, capt_model_ok, quick)
+    nontrivial |= capt["nontrivial"]
+
     # ---------------------------------------------------------------- known findings: re-run the witnesses
     for e in c.open_known(PID):
         w = e.get("witness", {})
@@ -943,6 +955,7 @@ def main(argv):
     n_f = sum(1 for b in xs if is_finite_bits(b))
     res.coverage["evaluations"] = (5 * len(xs) + len(lits) + 2 * len(tonums) + len(jsons) + cli_checked
                                    + cli_lit_checked)
+    res.coverage["evaluations"] += capt["evaluations"]
     res.coverage["distinct_nontrivial"] = len(nontrivial)
     res.coverage["rule"] = ("distinct finite doubles taken through all five textual paths, plus distinct literal texts "
                             "that reach literal conversion (not rejected by the grammar), plus distinct to_number / JSON "
